@@ -328,6 +328,12 @@ def k_fortune(eng, which):
                 return True, fwd
             return base(c, fr, callee, args, path)
         model.call = call
+        for extra in ("get_end_age", "get_start_age"):
+            try:
+                ctx.inline_map["ChildLimit::" + extra] = M.find_fn(eng.fns, extra, "&ChildLimit")
+            except Exception:
+                pass
+        ctx.inline = set(ctx.inline_map)
         limit = rec.field(fields.index("child_limit"), "ChildLimit")
         n = ctx.fresh_value("n", "isize")
         paths = ctx.run(fn, [("refrec", rec)] + ([n] if method == "next" else []))
